@@ -1,6 +1,6 @@
 //! C08: the real retry budgets with hooked atomics under the baton scheduler.
 //! ops: `manual thread t=<i> prog=<W|D…>` … then `manual sched s=<tid,tid,…>` runs the schedule.
-use crate::sched::run_scheduled_opt;
+use crate::sched::{atrace_push, atrace_take, run_scheduled_opt};
 use crate::world::*;
 use std::sync::Arc;
 use tower_resilience_retry::{AimdBudget, RetryBudget, TokenBucketBudget};
@@ -69,16 +69,24 @@ impl Mw for Adapter {
                     }
                 };
                 let mut bodies: Vec<Box<dyn FnOnce() -> Vec<String> + Send>> = Vec::new();
-                for p in self.progs.iter() {
+                let _ = atrace_take();
+                for (tid, p) in self.progs.iter().enumerate() {
                     let p = p.clone();
                     let b = budget.clone();
                     bodies.push(Box::new(move || {
                         let mut out = Vec::new();
                         for ch in p.chars() {
                             match ch {
-                                'W' => out.push(if b.try_withdraw() { "1".to_string() } else { "0".to_string() }),
+                                'W' => {
+                                    atrace_push(format!("b{}:W", tid));
+                                    let r = if b.try_withdraw() { "1" } else { "0" };
+                                    atrace_push(format!("e{}:{}", tid, r));
+                                    out.push(r.to_string())
+                                }
                                 'D' => {
+                                    atrace_push(format!("b{}:D", tid));
                                     b.deposit();
+                                    atrace_push(format!("e{}:-", tid));
                                     out.push("-".to_string())
                                 }
                                 _ => {}
@@ -88,6 +96,11 @@ impl Mw for Adapter {
                     }));
                 }
                 let (trace, outs) = run_scheduled_opt(bodies, &schedule, self.kv.u64("inner", 0) == 1);
+                // the value-level trace travels to the model as an observed choice of the `sched` operation; the
+                // implementation's claim is that it follows the read-modify-write protocol (`trace-ok`), the model's
+                // verified checker (`TR.Budget.checkTrace`) confirms or refutes it
+                let at = atrace_take();
+                obs("tr", if at.is_empty() { "-".to_string() } else { at.join(";") });
                 for l in trace {
                     log(l);
                 }
@@ -98,6 +111,7 @@ impl Mw for Adapter {
                 if let Some(a) = aimd_ref {
                     log(format!("limit {}", a.current_max()));
                 }
+                log("trace-ok".to_string());
             }
             _ => {}
         }
